@@ -1,6 +1,7 @@
 """This module includes the Executor of ELFI graphs."""
 
 import logging
+import re
 from operator import itemgetter
 
 import networkx as nx
@@ -164,6 +165,12 @@ class Executor:
         return output_dict
 
 
+def _constant_sort_key(node):
+    if isinstance(node, str) and node.startswith('_'):
+        return re.sub(r'_[0-9a-f]{4}$', '_', node), node
+    return node, node
+
+
 def nx_constant_topological_sort(G, nbunch=None, reverse=False):
     """Return a list of nodes in a constant topological sort order.
 
@@ -220,8 +227,9 @@ def nx_constant_topological_sort(G, nbunch=None, reverse=False):
     explored = set()
 
     if nbunch is None:
-        # Sort them to alphabetical order
-        nbunch = sorted(G.nodes())
+        # Sort them to alphabetical order. Automatically named private nodes end with a
+        # random suffix that must not have an effect on the order.
+        nbunch = sorted(G.nodes(), key=_constant_sort_key)
     for v in nbunch:  # process all vertices in G
         if v in explored:
             continue
